@@ -450,7 +450,7 @@ def threadsafe_async_cache(
                     wait_fut = run_coro_ts(wait_event, caching_loop)
                 except RuntimeError:  # caching loop most likely closed
                     continue  # loop around and try again
-                wait_event = aio.wrap_future(wait_fut)
+                wait_event = _wait_foreign(aio.wrap_future(wait_fut))
 
             # Wrap anything waiting for the event in a long timeout just
             # to ensure nothing hangs completely if the original task is
@@ -477,6 +477,20 @@ def threadsafe_async_cache(
                 raise
 
     return _wrapper  # type: ignore[return-value]
+
+
+async def _wait_foreign(fut: 'aio.Future[bool]') -> bool:
+    """
+    Wait for a future bridged from another event loop. If that loop
+    shuts down it cancels the future, which must not be mistaken for a
+    cancellation of the waiting task, so it is reported as not set.
+    """
+    try:
+        return await fut
+    except aio.CancelledError:
+        if fut.cancelled():
+            return False
+        raise
 
 
 _BufferFunc = Callable[[Set[T]], Awaitable[None]]
